@@ -179,9 +179,64 @@ def _points(b: dict) -> list[dict]:
     return driver.systematic_points(b)
 
 
+# ------------------------------------------------ real processes (procnet)
+PROC_BUDGET = {'quick': 8, 'thorough': 60}
+
+
+def procnet_case(arg: tuple[int, int]) -> dict:
+    """One real runtime on private ports: 6-12 compilations in waves, trees
+    with in-task cancels and un-awaited children, the client cancels some
+    compilations of each wave (at once or after a real delay) and fetches the
+    others; afterwards a probing compilation reads every worker's tables."""
+    from vlib import procnet as P
+    from vlib.simnet import workloads as WL
+    seed, idx = arg
+    rng = core.rng_for(seed, PID, 30, idx)
+    trees, expected = [], []
+    n = int(rng.integers(6, 13))
+    while len(trees) < n:
+        g = scen.TreeGen(rng, 'p%dt' % len(trees), max_tasks=int(rng.integers(6, 40)), cancel=bool(rng.random() < 0.7), raises=False, nexts=True,
+                         unawaited=True, wide=bool(rng.random() < 0.4))
+        tree = g.tree(int(rng.integers(1, 4)))
+        val, ex = WL.interpret(tree)
+        if ex.raises is not None or ex.may_raise:
+            continue  # awaiting a cancelled future fails the compilation: kept to the simulation
+        trees.append(tree)
+        expected.append(val)
+    topo = str(rng.choice(['attached', 'attached', 'detached']))
+    wave = int(rng.choice([2, 3, 4, 6]))
+    cancel = sorted(int(k) for k in range(n) if rng.random() < 0.4)
+    case: dict[str, Any] = {
+        'topology': topo, 'trees': trees, 'wave': wave, 'reverse_fetch': bool(rng.random() < 0.5), 'cancel': cancel,
+        'cancel_delay': float(rng.choice([0.0, 0.0, 0.001, 0.005, 0.02, 0.1])), 'probe_tables': 24, 'probe_attempts': 4,
+        'env': {'VERIF_INJECT': '1', 'VERIF_MON': 'switch', 'VERIF_SWITCHINT': str(rng.choice(['0.005', '0.0001', '0.00001']))},
+    }
+    if topo == 'attached':
+        case['workers'] = int(rng.integers(2, 5))
+    else:
+        case['managers'] = [[2], [1, 1], [2, 2], [3, 1]][int(rng.integers(4))]
+    rec = P.stress_case(case, expected)
+    rec['idx'] = idx
+    rec['case'] = {k: v for k, v in case.items() if k != 'trees'}
+    rec['case']['ntrees'] = n
+    rec['in_task_cancels'] = sum(1 for t in trees if has_cancel(t))
+    rec.pop('tables', None)
+    return rec
+
+
 def main(tier: str, seed: int, replay: str | None = None) -> int:
     run = core.Run(PID, tier, seed)
     if replay:
+        import json
+        w = json.load(open(replay)).get('witness', {})
+        if w.get('family') == 'procnet':
+            rec = procnet_case((w['procnet']['seed'], w['procnet']['idx']))
+            run.case('procnet-replay')
+            run.case('procnet-replay-pad')
+            for x in rec['witness']:
+                run.violation(dict(x, family='procnet', procnet=w['procnet']))
+            print('replayed real-process case: returned=%s correct=%s witnesses=%s' % (rec['returned'], rec['correct'], [x['kind'] for x in rec['witness']]))
+            return run.finish(rule='replay of one real-process cancel case (timing is not reproducible; the case is)', assumptions=[])
         return driver.replay_main(run, replay, judge, nontrivial)
     n_in, n_line, n_cc, n_dc, n_base, max_pts = BUDGET[tier]
     scs = [(make_scenario(seed, i, 'intask'), 'intask') for i in range(n_in)]
@@ -199,10 +254,37 @@ def main(tier: str, seed: int, replay: str | None = None) -> int:
         run.count('cancels_processed_by_all_workers', obs.get('_cancels_processed', 0))
         run.count('quiescent_snapshots_checked', len(obs.get('snaps', [])))
     acc.finish_extra()
+    n_proc = PROC_BUDGET[tier]
+    precs = core.pmap(procnet_case, [(seed, i) for i in range(n_proc)], workers=4)
+    for rec in precs:
+        run.case(core.sig_of(('procnet', rec['idx'], rec['case'])), nontrivial=rec['correct'] >= 2 and rec.get('cancelled', 0) + rec['in_task_cancels'] >= 1,
+                 sample={'family': 'procnet', 'case': rec['case'], 'returned': rec['returned'], 'correct': rec['correct'], 'cancelled': rec.get('cancelled', 0),
+                         'workers_probed': rec.get('workers_probed'), 'events': rec['events'][:6]} if rec['idx'] < 2 else None)
+        run.count('executions:procnet')
+        run.count('procnet_topology:' + rec['case']['topology'])
+        run.count('procnet_bystander_results_compared', rec['returned'])
+        run.count('procnet_bystander_results_correct', rec['correct'])
+        run.count('procnet_client_cancels', rec.get('cancelled', 0))
+        run.count('procnet_trees_with_in_task_cancel', rec['in_task_cancels'])
+        run.count('procnet_worker_tables_probed', rec.get('workers_probed', 0))
+        run.count('procnet_probe_attempts', rec.get('probe_attempts', 0))
+        if rec.get('inconclusive'):
+            run.count('procnet_inconclusive')
+            run.extra.setdefault('procnet_inconclusive_reasons', []).append('case %d: %s' % (rec['idx'], rec['inconclusive']))
+        for x in rec['witness']:
+            x = dict(x)
+            x['family'] = 'procnet'
+            x['procnet'] = {'seed': seed, 'idx': rec['idx']}
+            x['case'] = rec['case']
+            run.violation(x)
+    if run.counters.get('procnet_inconclusive', 0) > 0.3 * n_proc:
+        run.inconclusive_because('%d of %d real-process cases were inconclusive' % (run.counters['procnet_inconclusive'], n_proc))
+    for c in ('procnet_bystander_results_compared', 'procnet_client_cancels', 'procnet_worker_tables_probed'):
+        run.require(c, 1)
     for c in ('deliveries', 'task_bodies_run', 'cancel_messages_delivered', 'cancels_processed_by_all_workers', 'quiescent_snapshots_checked', 'preemptions'):
         run.require(c, 1)
     return run.finish(
-        rule='scenario families: in-task cancel at every kind of point (before start / delayed / awaiting / after partial next() / after completion, await of a cancelled future), client cancel(task_id) after 0-60 scheduler turns with bystanders, client close() or abrupt client death with work in flight on a detached server with a bystander client; random delivery orders, random and systematic line-level pre-emption. distinct = (tree shapes, client ops, topology, delivery-order hash, pre-emption/crash points); non-trivial = >=1 CANCEL delivered and >=2 bodies ran',
+        rule='scenario families: in-task cancel at every kind of point (before start / delayed / awaiting / after partial next() / after completion, await of a cancelled future), client cancel(task_id) after 0-60 scheduler turns with bystanders, client close() or abrupt client death with work in flight on a detached server with a bystander client; random delivery orders, random and systematic line-level pre-emption. distinct = (tree shapes, client ops, topology, delivery-order hash, pre-emption/crash points); non-trivial = >=1 CANCEL delivered and >=2 bodies ran. Real-process family (procnet): real bqskit.runtime processes over real sockets (attached 2-4 workers or detached managers), 6-12 compilations in waves of 2-6 with in-task cancels and un-awaited children, the client cancels ~40% of them at once or after 1-100 ms and fetches the rest (each value compared with the interpreter); then a probing compilation maps a leaf over all workers that reports tasks, delayed tasks and mailboxes not belonging to the probe itself (up to 4 probes 0.5-1.5 s apart: only an entry present in the last probe is called a leak)',
         assumptions=driver.SIM_ASSUMPTIONS + [
             'K3 excludes the tombstone set of cancelled ids and the id->connection retention while the client stays connected, as the property statement does',
         ],
